@@ -332,8 +332,28 @@ pub fn run_channel(t: &ChannelTrace, scratch: &Scratch) -> ChannelOutcome {
     let dev = std::fs::metadata(scratch.side()).map(|m| m.dev()).unwrap_or(0);
     let mut o = match t.kind.as_str() {
         "metablock" => decode_all::<in_toto::models::Metablock>(t, texts, file, dev),
-        "layout" => decode_all::<in_toto::models::LayoutMetadata>(t, texts, file, dev),
-        "link" => decode_all::<in_toto::models::LinkMetadata>(t, texts, file, dev),
+        "layout" => decode_all_ext::<in_toto::models::LayoutMetadata>(
+            t,
+            texts,
+            file,
+            dev,
+            vec![("MetadataWrapper::from_bytes(.., Layout)", |b| match in_toto::models::MetadataWrapper::from_bytes(b, in_toto::models::MetadataType::Layout) {
+                Ok(in_toto::models::MetadataWrapper::Layout(l)) => Ok(l),
+                Ok(_) => Err("from_bytes(Layout) returned a link".to_string()),
+                Err(e) => Err(e.to_string()),
+            })],
+        ),
+        "link" => decode_all_ext::<in_toto::models::LinkMetadata>(
+            t,
+            texts,
+            file,
+            dev,
+            vec![("MetadataWrapper::from_bytes(.., Link)", |b| match in_toto::models::MetadataWrapper::from_bytes(b, in_toto::models::MetadataType::Link) {
+                Ok(in_toto::models::MetadataWrapper::Link(l)) => Ok(l),
+                Ok(_) => Err("from_bytes(Link) returned a layout".to_string()),
+                Err(e) => Err(e.to_string()),
+            })],
+        ),
         "wrapper" => decode_all_ext::<in_toto::models::MetadataWrapper>(
             t,
             texts,
@@ -349,8 +369,26 @@ pub fn run_channel(t: &ChannelTrace, scratch: &Scratch) -> ChannelOutcome {
         "inspection" => decode_all::<in_toto::models::inspection::Inspection>(t, texts, file, dev),
         "pubkey" => decode_all::<in_toto::crypto::PublicKey>(t, texts, file, dev),
         "signature" => decode_all::<in_toto::crypto::Signature>(t, texts, file, dev),
-        "statement" => decode_all::<in_toto::models::StatementWrapper>(t, texts, file, dev),
-        "predicate" => decode_all::<in_toto::models::PredicateWrapper>(t, texts, file, dev),
+        "statement" => decode_all_ext::<in_toto::models::StatementWrapper>(
+            t,
+            texts,
+            file,
+            dev,
+            vec![("StatementWrapper::try_from_value", |b| {
+                let v: Value = serde_json::from_slice(b).map_err(|e| e.to_string())?;
+                in_toto::models::StatementWrapper::try_from_value(v).map_err(|e| e.to_string())
+            })],
+        ),
+        "predicate" => decode_all_ext::<in_toto::models::PredicateWrapper>(
+            t,
+            texts,
+            file,
+            dev,
+            vec![("PredicateWrapper::try_from_value", |b| {
+                let v: Value = serde_json::from_slice(b).map_err(|e| e.to_string())?;
+                in_toto::models::PredicateWrapper::try_from_value(v).map_err(|e| e.to_string())
+            })],
+        ),
         _ => ChannelOutcome { results: vec![], unequal: None, panic: None, respelled: false, io: (0, 0, 0), file_io: (0, 0, 0) },
     };
     o.respelled = respelled;
